@@ -1,4 +1,5 @@
-"""./check setup : offline build of everything the checks need (warms the Go build cache, parses every spec)."""
+"""./check setup : offline warm-up (Go build cache for every harness command). Each check rebuilds what it
+needs from /repo's working tree anyway, so a command that does not build yet is reported but does not fail setup."""
 import os
 import lib
 
@@ -7,6 +8,9 @@ def main():
     cmds = sorted(d for d in os.listdir(os.path.join(lib.HARNESS_DIR, "cmd"))
                   if os.path.isdir(os.path.join(lib.HARNESS_DIR, "cmd", d)))
     for c in cmds:
-        lib.build_harness(c)
-        lib.log("built", c)
+        try:
+            lib.build_harness(c)
+            lib.log("built", c)
+        except lib.InfraError as e:
+            lib.log("WARNING: %s does not build yet: %s" % (c, str(e)[:300]))
     return 0
